@@ -21,7 +21,7 @@ def sendFrame (userId channelId : Nat) (message : Bytes) : Outcome Bytes :=
     if x.length + 4 > 65535 then .err "InvalidSize" else .ok (tpktHeader x.length ++ x)
 
 /-- `shutdown`: disconnect provider ultimatum -/
-def disconnectUltimatum : Bytes := [0x21, 0x80, 0, 0, 0, 0, 0, 0]
+def disconnectUltimatum : Bytes := [0x21, 0x80]
 
 inductive Chan | global | user
 deriving Repr, DecidableEq
